@@ -15,7 +15,8 @@ if append_mode:
     target = [w.strip("(),") for w in placement.split() if w.strip("(),").endswith(".rs") and not w.startswith("_seeded")][-1]
     place = os.path.join(wt, target)
 else:
-    place = os.path.join(wt, placement.split()[0])
+    cands = [w.strip("(),`") for w in placement.split() if w.strip("(),`").endswith(".rs") and not w.strip("(),`").startswith("_seeded")]
+    place = os.path.join(wt, cands[0] if cands else placement.split()[0])
 def sh(cmd, **kw):
     p = subprocess.run(cmd, shell=True, cwd=wt, stdout=subprocess.PIPE, stderr=subprocess.STDOUT, text=True, **kw)
     return p.returncode, p.stdout
